@@ -3,7 +3,7 @@
 From Coq Require Import List Bool ZArith NArith QArith.
 Import ListNotations.
 From Femto Require Import Base.Num Ctl.Tok Ctl.Machine Ctl.ParseProofs Ctl.Dwell Ctl.Safety Geo.Rigid Pgm.Ops Pgm.OpsProofs
-  Pgm.SessionProofs Pgm.SafeProofs Pgm.CalmProofs Pgm.SessionSafe.
+  Pgm.SessionProofs Pgm.SafeProofs Pgm.CalmProofs Pgm.SessionSafe Pgm.Reuse Pgm.ReuseProofs.
 
 (* the parser inverts the printer for every loop tree *)
 Theorem C03_parse_flatten : forall l, wf l = true -> parse (flatten l) = Some l.
@@ -111,3 +111,16 @@ Proof.
   eexists. split; [vm_compute; reflexivity|]. vm_compute. auto.
 Qed.
 Print Assumptions C03_loaded_in_loop_refuted.
+
+(* One compiler object, several files (close() and go on, or the context entered again).  The file that follows a written
+   one starts with nothing declared, an empty DVAR preamble and a zero dwell total, whatever the earlier session did ... *)
+Theorem C03_next_file_starts_clean : forall st,
+  c_dvars (st_dwell (after_close st) 0%Q) = [] /\ c_pre (st_dwell (after_close st) 0%Q) = [] /\ c_dwell (st_dwell (after_close st) 0%Q) = 0%Q.
+Proof. exact second_session_start. Qed.
+Print Assumptions C03_next_file_starts_clean.
+(* ... and when that session left the shutter tracked closed and no program loaded, the next file is exactly the file a new
+   object would write: C03_balanced, C03_no_error_shutter_rotation (and C12_dwell) hold of it as they do of [session] *)
+Theorem C03_reused_compiler : forall st c ops, c_sh st = false -> c_loaded st = [] ->
+  fst (session_gen (after_close st) c ops) = session c ops.
+Proof. exact reuse_is_fresh. Qed.
+Print Assumptions C03_reused_compiler.
